@@ -169,7 +169,7 @@ def linear_data(rng, nx, nu, ep, n_eps, m_extra=6):
         for k in range(n - 1):
             x[k + 1] = A @ x[k] + B @ u[k]
         blocks.append((l, np.hstack((x, u))))
-    X = pykoop.combine_episodes(blocks, episode_feature=ep) if ep else blocks[0][1]
+    X = st.ref_combine(blocks, ep) if ep else blocks[0][1]
     return X, A, B
 
 
